@@ -133,3 +133,7 @@ Definition emission_of (ds : list doc) (i : nat) : emission :=
          else if forallb (fun c => negb (doc_generate c)) l then MustNotEmit
          else Unconstrained
   end.
+
+(* correlation rule k (asking for generation or not: g) refers to rule i *)
+Definition referrer (ds : list doc) (rr : list (list nat)) (k i : nat) (g : bool) : Prop :=
+  exists d, nth_error ds k = Some d /\ is_corr d = true /\ doc_generate d = g /\ In i (nth k rr []).
